@@ -113,7 +113,8 @@ type pathState struct {
 
 	sched *scheduler
 
-	fnSeen map[string]int // functions executed (name -> instr count)
+	fnSeen   map[string]int // functions executed (name -> instr count), filled at path end
+	fnSeenFi map[*fnInfo]struct{}
 	stubs  map[string]int
 }
 
@@ -127,6 +128,7 @@ func newPathState(eng *Engine, solver *smt.Solver, item workItem) *pathState {
 		varCount: map[string]int{},
 		reach:    map[string]bool{},
 		fnSeen:   map[string]int{},
+		fnSeenFi: map[*fnInfo]struct{}{},
 		stubs:    map[string]int{},
 		shadow:   map[*value]*shadow{},
 		raceSeen: map[string]bool{},
